@@ -162,6 +162,61 @@ func runC09(c *Ctx) {
 				return f == want || (strings.HasPrefix(f, "lookup(") && strings.HasSuffix(f, " != nil") && strings.Contains(f, ".protocolReceivers,"))
 			})
 			c.Check(v[0].OK, "receiver-found", key, sink.Pos(), "delivery dominated by receiver != nil", "delivery is reachable without a registered receiver having been found ("+v[0].Witness+")")
+			// the receiver is looked up for this very segment: a receiver remembered from an earlier segment is right only
+			// if both the protocol id and the direction of this segment were compared with the remembered ones
+			{
+				var carried *ssa.Phi
+				seenV := map[ssa.Value]bool{}
+				var walkV func(v ssa.Value, d int)
+				walkV = func(v ssa.Value, d int) {
+					if v == nil || seenV[v] || d > 10 || carried != nil {
+						return
+					}
+					seenV[v] = true
+					switch x := v.(type) {
+					case *ssa.Phi:
+						for i, e := range x.Edges {
+							if reachesBlock(x.Block(), x.Block().Preds[i]) && x.Block().Dominates(x.Block().Preds[i]) {
+								carried = x // an incoming value arrives over a back edge
+								return
+							}
+							walkV(e, d+1)
+						}
+					case *ssa.Extract:
+						walkV(x.Tuple, d+1)
+					case *ssa.Lookup:
+						walkV(x.X, d+1)
+					case *ssa.UnOp:
+						walkV(x.X, d+1)
+					case *ssa.FieldAddr:
+						walkV(x.X, d+1)
+					}
+				}
+				walkV(recv, 0)
+				if carried == nil {
+					c.Ok("receiver-per-segment", key, sink.Pos(), "the receiver is looked up for each segment")
+				} else {
+					roleCompared := false
+					for _, in := range fnInstrs(rl) {
+						bo, ok := in.(*ssa.BinOp)
+						if !ok || (bo.Op != token.EQL && bo.Op != token.NEQ) {
+							continue
+						}
+						tx, ty := trace(bo.X), trace(bo.Y)
+						isRole := func(t string) bool { return strings.Contains(t, "IsResponse(") }
+						_, px := bo.X.(*ssa.Phi)
+						_, py := bo.Y.(*ssa.Phi)
+						if (isRole(tx) && py) || (isRole(ty) && px) || (px && py && strings.Contains(typeStr(bo.X.Type()), "ProtocolRole")) {
+							roleCompared = true
+						}
+					}
+					if roleCompared {
+						c.Undecided("%s: the receiver is remembered across segments and re-used under a comparison this checker did not derive rules for", key)
+					} else {
+						c.Bad("receiver-per-segment", key, carried.Pos(), "the receiver of a segment can be the one remembered from an earlier segment, and the direction (response bit) of the new segment is never compared with the remembered one: on a connection where both roles of a protocol are registered, a response following a request of the same protocol is delivered to the wrong endpoint")
+					}
+				}
+			}
 			c.Check(derivesOnlyFromField(recv, "protocolReceivers", 0, nil), "receiver-found", key+":registered", sink.Pos(), "the receiver is read from the registered receivers", "the receiver delivered to is "+shortArg(trace(recv))+", not one read from protocolReceivers")
 		}
 	}
